@@ -921,7 +921,7 @@ fn rfc4592_expectations() -> Vec<(String, u16, PathKind)> {
 pub fn check() -> Option<Check> {
     let answers = prop(
         "answers",
-        8_000,
+        40_000,
         300_000,
         case_strategy,
         |c: &Case, rec: &mut Rec| run_case(c, rec, None),
